@@ -223,7 +223,23 @@ def run_flux(case):
     F = _mat(_quiet(tpt.reactive_fluxes, *a, **kw), cx.n, "reactive_fluxes")
     check_flux(cx, F)
     selfloops = bool(np.any(np.diag(cx.T)[cx.inter] > 0))
-    return cx.info(["intermediate_selfloop=%s" % selfloops])
+    extra = ["intermediate_selfloop=%s" % selfloops]
+    if "populations" in kw and int(np.sum(cx.T * 1000)) % 3 == 0:
+        # the weights of the states may be handed over as whole numbers (frame counts per state) or in single
+        # precision: the flux through an edge is linear in the weight of the state it leaves (f_ij = w_i q-_i T_ij q+_j),
+        # so row i of the result is row i of the result for pi, times w_i / pi_i
+        for tag, w in (("int64", np.round(cx.pi * 2.0 ** 20).astype(np.int64)),
+                       ("int32", np.round(cx.pi * 1000.0).astype(np.int32)),
+                       ("float32", cx.pi.astype(np.float32))):
+            a2, _ = cx.args()
+            F2 = _mat(_quiet(tpt.reactive_fluxes, *a2, populations=w.copy()), cx.n, "reactive_fluxes")
+            ratio = np.where(cx.pi > 0, w.astype(np.float64) / np.where(cx.pi > 0, cx.pi, 1.0), 0.0)
+            want = F * ratio[:, None]
+            require(bool(np.all(np.abs(F2 - want) <= 1e-12 * np.abs(want) + ZERO * float(np.max(ratio)))),
+                    "reactive flux is not linear in the populations: weights given as %s" % tag,
+                    got=F2.tolist(), want=want.tolist(), weights=w.tolist())
+        extra.append("populations_also_as_counts=True")
+    return cx.info(extra)
 
 
 # --------------------------------------------------------------------------
